@@ -29,6 +29,7 @@
 # POSSIBILITY OF SUCH DAMAGE.
 
 
+import json
 import random
 from numbers import Real
 from typing import Callable, Sized
@@ -437,7 +438,10 @@ class VariableWithCostDict(Variable):
         v = super()._from_repr(r)
         # json only supports strings as keys: when the repr has been sent on
         # the wire, map the keys of the costs back to the values of the domain.
-        by_str = {str(d): d for d in v.domain.values}
+        # (json renders non-string keys its own way: 1 -> "1", True -> "true")
+        by_str = {
+            json.dumps(d): d for d in v.domain.values if not isinstance(d, str)
+        }
         v._costs = {
             k if k in v.domain.values else by_str.get(k, k): c
             for k, c in v._costs.items()
